@@ -340,3 +340,33 @@ func (e *Engine) algBuiltin(env *Env, name string, ex *SExpr) (Val, bool) {
 	}
 	return Val{}, false
 }
+
+// ---------------------------------------------------------------------------------------
+// math/big: just enough for range checks on identifiers (C19): an Int object has an integer value (ghost heap L!big!val)
+
+func bigVal(st *State, ref string) string {
+	heapSortOf["L!big!val"] = "(Array Int Int)"
+	return sel(st.heap("L!big!val", "(Array Int Int)"), ref)
+}
+
+func init() {
+	libModels["math/big.NewInt"] = func(e *Engine, st *State, fr *Frame, args []Val, resT types.Type, pos token.Pos, ins ssa.Instruction) Val {
+		used(e, "math/big.NewInt(x): a new Int whose value is x")
+		r := st.freshRef("big")
+		heapSortOf["L!big!val"] = "(Array Int Int)"
+		st.setHeap("L!big!val", "(Array Int Int)", store(st.heap("L!big!val", "(Array Int Int)"), r, args[0].S))
+		return Val{S: r, T: resT}
+	}
+	libModels["(*math/big.Int).Cmp"] = func(e *Engine, st *State, fr *Frame, args []Val, resT types.Type, pos token.Pos, ins ssa.Instruction) Val {
+		used(e, "math/big.Int.Cmp: -1, 0, +1 according to the order of the two values; panics on a nil receiver or argument")
+		a, b := bigVal(st, args[0].S), bigVal(st, args[1].S)
+		return Val{S: ite("(< "+a+" "+b+")", "(- 1)", ite(eq(a, b), "0", "1")), T: resT}
+	}
+	libModels["(*math/big.Int).Uint64"] = func(e *Engine, st *State, fr *Frame, args []Val, resT types.Type, pos token.Pos, ins ssa.Instruction) Val {
+		used(e, "math/big.Int.Uint64: the value when it is in 0..2^64-1, unspecified otherwise")
+		a := bigVal(st, args[0].S)
+		v := st.freshVal("biguint", resT)
+		st.assume(implies("(and (<= 0 "+a+") (< "+a+" 18446744073709551616))", eq(v.S, a)))
+		return v
+	}
+}
